@@ -75,11 +75,17 @@ def ioOf (arch : Arch) (ts : List OpTensor) : Except Err Io :=
   | none => .error .region
   | some rs => .ok { shapes := ts.map (·.shape), elemSizes := ts.map (·.elemSize), regions := rs, offsets := ts.map (·.address) }
 
+/-- the proposed repair `/verif_patches/C12-30` (`same_rank`): a shorter shape gets leading 1s up to the longest rank of its list -/
+def padShapes (shapes : List (List Nat)) : List (List Nat) :=
+  let rank := shapes.foldl (fun m s => max m s.length) 0
+  shapes.map fun s => List.replicate (rank - s.length) 1 ++ s
+
 /-- first call operator of the subgraph's passes (`ops` = the operators in pass order, `true` = `Op.CustomNpuOp`) -/
 def firstCall {α : Type} (ops : List (Bool × α)) : Option α := (ops.find? (·.1)).map (·.2)
 
-/-- `write_rawdata_output` for the call operator with operands `inputs` and results `outputs` -/
-def writeRaw (arch : Arch) (inputs outputs : List OpTensor) : Except Err Npz :=
+/-- `write_rawdata_output` for the call operator with operands `inputs` and results `outputs`; `pad` = the writer has the
+    repair C12-30 (the unchanged writer: `false`) -/
+def writeRawG (pad : Bool) (arch : Arch) (inputs outputs : List OpTensor) : Except Err Npz :=
   match inputs with
   | c :: w :: s :: f :: ins =>
     match getRegion arch w.memType, getRegion arch s.memType, getRegion arch f.memType with
@@ -90,11 +96,18 @@ def writeRaw (arch : Arch) (inputs outputs : List OpTensor) : Except Err Npz :=
         match ioOf arch outputs with
         | .error e => .error e
         | .ok o =>
-          if !(sameRank i.shapes && sameRank o.shapes) then .error .ragged else
+          if pad then
+            .ok { cmdData := c.values, weightData := w.values, weightRegion := wr, scratchShape := s.shape, scratchRegion := sr,
+                  scratchFastShape := f.shape, scratchFastRegion := fr, input := { i with shapes := padShapes i.shapes },
+                  output := { o with shapes := padShapes o.shapes } }
+          else if !(sameRank i.shapes && sameRank o.shapes) then .error .ragged else
           .ok { cmdData := c.values, weightData := w.values, weightRegion := wr, scratchShape := s.shape, scratchRegion := sr,
                 scratchFastShape := f.shape, scratchFastRegion := fr, input := i, output := o }
     | _, _, _ => .error .region
   | _ => .error .unpack
+
+/-- the writer of the unchanged repository -/
+def writeRaw (arch : Arch) (inputs outputs : List OpTensor) : Except Err Npz := writeRawG false arch inputs outputs
 
 /-- the bytes `tflite_writer` stores in the buffer of a memory tensor: its values, unless the tensor is an arena tensor (buffer 0) -/
 def tfliteBuffer (t : MemTensor) : Option (List Nat) := if hasBuffer t then t.values else none
